@@ -161,7 +161,7 @@ Fixpoint get_field (sch : schema) (m : message) (path : list string) : option rf
   match path with
   | [] => None
   | first :: rest =>
-      match msg_field m (if reserved first then first ++ "_" else first) with
+      match msg_field m (if reserved first && m_proto_plus m then first ++ "_" else first) with
       | None => None
       | Some cursor =>
           match rest with
@@ -189,7 +189,7 @@ Definition sig_item (sch : schema) (input : message) (cross : bool) (piece : str
   match get_field sch input (segments name) with
   | None => None
   | Some rf =>
-      let key := if reserved (r_pb rf) then name ++ "_" else name in
+      let key := if String.eqb (r_name rf) (r_pb rf) then name else name ++ "_" in
       if cross && negb (r_primitive rf) then Some None else Some (Some (key, rf))
   end.
 
@@ -241,16 +241,13 @@ Record app := mkApp {
   ap_key : string;
   ap_guard : guard;
   ap_act : act;
-  ap_stray : nat;          (* stray spaces in front of the "if" line (template whitespace) *)
   ap_kind : vkind;         (* kind of value the field accepts *)
   ap_presence : bool
 }.
 
 Inductive coerce :=
 | CSame                                   (* if not isinstance(request, T): request = T(request) *)
-| CCross                                  (* if isinstance(request, dict): request = T(kwargs of request)  elif not request: request = T() *)
-| CCrossCtor (kw : list app).             (* ... elif not request: request = T(k1=p1, ..., kn=pn): one entry per keyword,
-                                             ap_key the keyword, ap_param the variable passed *)
+| CCross.                                 (* if isinstance(request, dict): request = T(kwargs of request)  elif not request: request = T() *)
 
 Inductive place := PInFresh | PTop.       (* the applications sit inside the branch that builds a new request / after the coercion *)
 
@@ -260,8 +257,7 @@ Record block := mkBlock {
   b_coerce : coerce;
   b_place : place;
   b_apps : list app;
-  b_proto_plus : bool;                    (* the request class is a proto-plus message *)
-  b_input_fields : list string            (* attribute names the request class accepts as constructor keywords *)
+  b_proto_plus : bool                     (* the request class is a proto-plus message *)
 }.
 
 Definition kind_of (f : rfield) : vkind :=
@@ -269,22 +265,14 @@ Definition kind_of (f : rfield) : vkind :=
 
 Definition fm := list (string * rfield).
 
-Definition mk_app (g : guard) (a : act) (stray : nat) (kf : string * rfield) : app :=
-  mkApp (r_name (snd kf)) (fst kf) g a stray (kind_of (snd kf)) (r_presence (snd kf)).
-
-(* second loop of the sync macro: the i-th item is preceded by the space left behind by the previous
-   "endif" line, and a map item by the space after its "if field.map" tag *)
-Fixpoint sync_cross_rep (first : bool) (l : fm) : list app :=
-  match l with
-  | [] => []
-  | kf :: l' =>
-      let stray := (if first then 0 else 1) + (if r_map (snd kf) then 1 else 0) in
-      mk_app GTruthy (if r_map (snd kf) then Update else Extend) stray kf :: sync_cross_rep false l'
-  end.
+Definition mk_app (g : guard) (a : act) (kf : string * rfield) : app :=
+  mkApp (r_name (snd kf)) (fst kf) g a (kind_of (snd kf)) (r_presence (snd kf)).
 
 Definition names (m : fm) : list string := map (fun kf => r_name (snd kf)) m.
 
-Definition emit_sync (m : fm) (cross proto_plus : bool) (input_fields : list string) : block :=
+(* _client_macros.j2: one loop for the fields that are assigned, then (cross-package requests only) one for the
+   repeated fields, updated when they are maps and extended otherwise; everything sits in the branch that creates the request *)
+Definition emit_sync (m : fm) (cross proto_plus : bool) : block :=
   let loop1 := filter (fun kf => negb (r_repeated (snd kf)) || negb cross) m in
   let loop2 := filter (fun kf => r_repeated (snd kf) && cross) m in
   mkBlock (names m)
@@ -292,20 +280,25 @@ Definition emit_sync (m : fm) (cross proto_plus : bool) (input_fields : list str
           (if cross then CCross else CSame)
           PInFresh
           (map (fun kf => mk_app GNotNone
-                            (if r_struct_value (snd kf) && r_repeated (snd kf) then Extend else Assign) 0 kf) loop1
-           ++ sync_cross_rep true loop2)
-          proto_plus input_fields.
+                            (if r_struct_value (snd kf) && r_repeated (snd kf) then Extend else Assign) kf) loop1
+           ++ map (fun kf => mk_app GTruthy (if r_map (snd kf) then Update else Extend) kf) loop2)
+          proto_plus.
 
-Definition emit_async (m : fm) (cross proto_plus : bool) (input_fields : list string) : block :=
-  let l1 := filter (fun kf => negb (r_repeated (snd kf)) && negb cross) m in
-  let l2 := filter (fun kf => r_map (snd kf) && negb cross) m in
-  let l3 := filter (fun kf => r_repeated (snd kf) && negb (r_map (snd kf)) && negb cross) m in
+(* async_client.py.j2: same-package requests: three loops after the coercion (assigned, maps updated, lists extended);
+   cross-package requests: inside the branch that creates the request, the non-repeated fields assigned and then every
+   repeated field extended *)
+Definition emit_async (m : fm) (cross proto_plus : bool) : block :=
+  let l1 := filter (fun kf => negb (r_repeated (snd kf))) m in
+  let l2 := filter (fun kf => r_map (snd kf)) m in
+  let l3 := filter (fun kf => r_repeated (snd kf) && negb (r_map (snd kf))) m in
+  let c2 := filter (fun kf => r_repeated (snd kf)) m in
   mkBlock (names m)
           (if is_nil m then None else Some (names m))
-          (if cross then CCrossCtor (map (fun kf => mk_app GNotNone Assign 0 (r_name (snd kf), snd kf)) m) else CSame)
-          PTop
-          (map (mk_app GNotNone Assign 0) l1 ++ map (mk_app GTruthy Update 0) l2 ++ map (mk_app GTruthy Extend 0) l3)
-          proto_plus input_fields.
+          (if cross then CCross else CSame)
+          (if cross then PInFresh else PTop)
+          (if cross then map (mk_app GNotNone Assign) l1 ++ map (mk_app GTruthy Extend) c2
+           else map (mk_app GNotNone Assign) l1 ++ map (mk_app GTruthy Update) l2 ++ map (mk_app GTruthy Extend) l3)
+          proto_plus.
 
 Inductive variant := Sync | Async.
 Definition emit (v : variant) := match v with Sync => emit_sync | Async => emit_async end.
@@ -321,9 +314,7 @@ Definition sig_ok (b : block) : bool :=
 (* request.<seg>.<seg> : no segment may be a keyword *)
 Definition keys_ok (b : block) : bool :=
   forallb (fun a => forallb (fun s => negb (is_kw s)) (segments (ap_key a))) (b_apps b).
-(* consecutive "if" lines at the same nesting level need the same indentation *)
-Definition indent_ok (b : block) : bool := forallb (fun a => Nat.eqb (ap_stray a) 0) (b_apps b).
-Definition block_ok (b : block) : bool := sig_ok b && keys_ok b && indent_ok b.
+Definition block_ok (b : block) : bool := sig_ok b && keys_ok b.
 
 (* ------------------------------------------------------------------------------------------------ *)
 (* 4. Running the block                                                                             *)
@@ -334,7 +325,6 @@ Definition kwargs := list (string * leaf).                    (* the parameters 
 
 Inductive outcome :=
 | ORaiseValue        (* ValueError of the mutual-exclusion check; nothing is sent *)
-| ORaiseCtor         (* the request constructor rejects a keyword; nothing is sent *)
 | ORaiseType         (* a value of the wrong kind reached an application; nothing is sent *)
 | OSend (r : req).   (* rpc(request, ...) is invoked with this request *)
 
@@ -383,11 +373,6 @@ Definition leaf_falsy (v : leaf) : bool :=
 Definition msg_falsy (proto_plus : bool) (m : req) : bool :=
   proto_plus && forallb (fun kv => leaf_falsy (snd kv)) (entries m).
 
-(* T(k1=p1, ...): every keyword must name a field of T, whatever its value; None values are skipped;
-   the others are stored (scalar assignment, list extension on the new message) *)
-Definition ctor_names_ok (b : block) (ctor : list app) : bool :=
-  forallb (fun a => mem_str (ap_key a) (b_input_fields b)) ctor.
-
 Definition exec (b : block) (ra : rarg) (kw : kwargs) : outcome :=
   let has := match b_guard b with Some ps => existsb (passed kw) ps | None => false end in
   let given := match ra with RNone => false | _ => true end in
@@ -399,8 +384,6 @@ Definition exec (b : block) (ra : rarg) (kw : kwargs) : outcome :=
       | PInFresh => if fresh then apply (b_apps b) r else OSend r
       | PTop => apply (b_apps b) r
       end in
-  let build (ctor : list app) :=
-      if ctor_names_ok b ctor then apply ctor empty_req else ORaiseCtor in
   match b_coerce b, ra with
   | CSame, RMsg m => finish false m
   | CSame, RNone => finish true empty_req
@@ -408,17 +391,11 @@ Definition exec (b : block) (ra : rarg) (kw : kwargs) : outcome :=
   | CCross, RDict d => finish false d
   | CCross, RNone => finish true empty_req
   | CCross, RMsg m => if msg_falsy (b_proto_plus b) m then finish true empty_req else finish false m
-  | CCrossCtor _, RDict d => finish false d
-  | CCrossCtor ctor, RNone => build ctor
-  | CCrossCtor ctor, RMsg m => if msg_falsy (b_proto_plus b) m then build ctor else finish false m
   end.
-
-(* attribute names the request class accepts as constructor keywords *)
-Definition ctor_fields (m : message) : list string := map (wrapper_name (m_proto_plus m)) (m_fields m).
 
 (* the request the caller means when passing these keyword arguments: the empty message with each passed
    field assigned, in declared order *)
-Definition spec_apps (m : fm) : list app := map (mk_app GNotNone Assign 0) m.
+Definition spec_apps (m : fm) : list app := map (mk_app GNotNone Assign) m.
 Definition request_of (m : fm) (kw : kwargs) : req := run_apps (spec_apps m) kw empty_req.
 
 (* ------------------------------------------------------------------------------------------------ *)
@@ -438,12 +415,12 @@ Definition syn_app_eqb (x y : syn_app) : bool :=
   match x, y with
   | (p1, k1, g1, a1), (p2, k2, g2, a2) => String.eqb p1 p2 && String.eqb k1 k2 && guard_eqb g1 g2 && act_eqb a1 a2
   end.
+(* SCrossCtor: the keyword construction the asyncio template used before /repo commit 14fc9e4; kept on the reader's
+   side so that its return is reported as a mismatch *)
 Inductive syn_coerce := SSame | SCross | SCrossCtor (kw : list (string * string)).
 Definition syn_of_coerce (c : coerce) : syn_coerce :=
   match c with
   | CSame => SSame | CCross => SCross
-  | CCrossCtor [] => SCross              (* T() with no keyword reads the same in both templates *)
-  | CCrossCtor l => SCrossCtor (map (fun a => (ap_key a, ap_param a)) l)
   end.
 Definition syn_coerce_eqb (x y : syn_coerce) : bool :=
   match x, y with
@@ -465,7 +442,6 @@ Definition syn_eqb (x y : syn_block) : bool :=
 Definition outcome_eqb_on (keys pres : list string) (a b : outcome) : bool :=
   match a, b with
   | ORaiseValue, ORaiseValue => true
-  | ORaiseCtor, ORaiseCtor => true
   | ORaiseType, ORaiseType => true
   | OSend x, OSend y =>
       forallb (fun k => option_eqb leaf_eqb (lookup k x) (lookup k y)) keys &&
